@@ -97,6 +97,15 @@ Step(ev) ==
               /\ \A nm \in stuck \ {"pos"} : nm \in vague \/ p[nm] \in {t1[o][nm], t1[from][nm]}
               /\ kind = "text" => p.pos = p.x \o p.y
               /\ Follow(o, p) /\ Answered("printset", 0, <<>>)
+    [] ev.a = "aset" ->
+         LET e == EntsOf(ev)[1]  r1 == ASetRes(e.name, e.v, FALSE) IN
+         Single(ev, r1) /\ DoorX("aset", ev, o, <<r1>>)
+    [] ev.a = "alist" ->
+         /\ ev.obs.ret = "ok"
+         /\ SeenNames(ev) = [j \in 1..NListed(kind) |-> Props(kind)[j].name]
+         /\ SeenVals(ev) = [j \in 1..NListed(kind) |-> View1(kind, t1[o], Props(kind)[j].name)]
+         /\ Quiet("alist")
+    [] ev.a = "nset" -> DoorX("nset", ev, o, NSetRs(EntsOf(ev)))
     [] ev.a = "tname" ->
          /\ ev.obs.ret = "ok" /\ ev.obs.tname = kind /\ ev.obs.iname = "object" /\ ev.obs.idesc = kind /\ ev.obs.icode = 1
          /\ Quiet("tname")
